@@ -5,7 +5,11 @@ from vlib.kani import Harness
 ENCODED = ["Unifier::unify_atom", "Unifier::unify_char", "Unifier::unify_structure", "Unifier::unify_list",
            "Unifier::unify_partial_string", "Unifier::unify_f64", "Unifier::unify_internal (loop body: "
            "dispatch on the first cell's tag, tabu-list hits)", "Heap::last_str_char_and_tail (K: the "
-           "string stepping used by partial_string_to_pdl)", "(number kernels: C05; bind/trail: C11)"]
+           "string stepping used by partial_string_to_pdl)", "(number kernels: C05; bind/trail: C11)",
+           "unify::bind_with_occurs_check (all paths, the traversal as one iteration from its head): untraversed "
+           "binding only for stack variables / constants, a hit fails without binding",
+           "dispatch.rs get_*_instr / unify_*_instr: direct binds only of cells built on the spot, machine values "
+           "through occurs_check.bind"]
 ASSUME = ["cells are dereferenced and stored before a kernel sees them (unify_internal does so; checked "
           "as part of the routing obligation only through the operands handed on)",
           "no Str cell carries './2' (lists are Lis / PStrLoc cells: parser Term::Cons, functor/3): the "
@@ -14,8 +18,8 @@ ASSUME = ["cells are dereferenced and stored before a kernel sees them (unify_in
           "Atom's PartialEq::eq, get_name_and_arity, build_with are uninterpreted; calls do not change "
           "what the region reads (frame assumption, DESIGN 10.2)"]
 BOUNDS = "every path of each kernel (acyclic regions; loops entered once from their head); 64-bit indices"
-OUTSIDE = ("the worklist as a whole (termination, the tabu list for rational trees), occurs-check variants "
-           "(bind_with_occurs_check: heap iterator), unify_constant's arena dispatch, partial_string_to_pdl "
+OUTSIDE = ("the worklist as a whole (termination, the tabu list for rational trees), the heap iterator behind the "
+           "occurs-check traversal (which cells it yields), unify_constant's arena dispatch, partial_string_to_pdl "
            "(string stepping: C20), attributed-variable wake-up, 'no variable outside the two terms is bound'")
 
 
@@ -33,8 +37,20 @@ HARNESSES = [
 
 
 def mpost(results, tier="quick"):
-    from vlib.mirsmt import c10
-    return c10.run(thorough=(tier == "thorough"))
+    from vlib.mirsmt import c10, c10occ
+    from vlib.common import EXIT_VIOLATION, EXIT_INCONCLUSIVE
+    r1 = c10.run(thorough=(tier == "thorough"))
+    r2 = c10occ.run()
+    out = dict(r1)
+    for k in ("evaluations", "distinct_nontrivial"):
+        out[k] = r1.get(k, 0) + r2.get(k, 0)
+    out["samples"] = r1.get("samples", []) + r2.get("samples", [])
+    out["mirsmt_regions"] = r1.get("mirsmt_regions", []) + r2.get("mirsmt_regions", [])
+    if "mirsmt_violations" in r2:
+        out.setdefault("mirsmt_violations", []).extend(r2["mirsmt_violations"])
+    ex = [r.get("exit", 0) for r in (r1, r2)]
+    out["exit"] = EXIT_VIOLATION if EXIT_VIOLATION in ex else (EXIT_INCONCLUSIVE if EXIT_INCONCLUSIVE in ex else 0)
+    return out
 
 
 def run(tier):
